@@ -276,7 +276,9 @@ type Association struct {
 	myNextRSN        uint32
 	reconfigs        map[uint32]*chunkReconfig
 	reconfigRequests map[uint32]*paramOutgoingResetRequest
-	// highest peer reset request already performed (to recognize retransmissions)
+	// peer reset requests already performed (to recognize retransmissions):
+	// the recent ones individually, older ones by the highest number performed
+	performedPeerRSNs       map[uint32]struct{}
 	lastPerformedPeerRSN    uint32
 	hasLastPerformedPeerRSN bool
 
@@ -3669,7 +3671,7 @@ func (a *Association) handleReconfigParam(raw param) (*packet, error) {
 			// https://chromium.googlesource.com/external/webrtc/+/refs/heads/main/net/dcsctp/socket/stream_reset_handler.cc#271
 			return nil, fmt.Errorf("%w: %d", ErrTooManyReconfigRequests, len(a.reconfigRequests))
 		}
-		if a.hasLastPerformedPeerRSN && sna32LTE(par.reconfigRequestSequenceNumber, a.lastPerformedPeerRSN) {
+		if a.peerResetPerformed(par.reconfigRequestSequenceNumber) {
 			// Retransmission of a request that has already been performed (its
 			// response was lost or is still in flight): answer it again, but do
 			// not reset the streams a second time - the identifiers may have
@@ -3753,10 +3755,7 @@ func (a *Association) resetStreamsIfAny(resetRequest *paramOutgoingResetRequest)
 			delete(a.streams, s.streamIdentifier)
 		}
 		delete(a.reconfigRequests, resetRequest.reconfigRequestSequenceNumber)
-		if !a.hasLastPerformedPeerRSN || sna32LT(a.lastPerformedPeerRSN, resetRequest.reconfigRequestSequenceNumber) {
-			a.lastPerformedPeerRSN = resetRequest.reconfigRequestSequenceNumber
-			a.hasLastPerformedPeerRSN = true
-		}
+		a.rememberPeerResetPerformed(resetRequest.reconfigRequestSequenceNumber)
 	} else {
 		a.log.Debugf("[%s] resetStream(): senderLastTSN=%d > peerLastTSN=%d",
 			a.name, resetRequest.senderLastTSN, a.peerLastTSN())
@@ -3769,6 +3768,38 @@ func (a *Association) resetStreamsIfAny(resetRequest *paramOutgoingResetRequest)
 			result:                         result,
 		},
 	}})
+}
+
+// peerResetPerformed reports whether the peer's reset request rsn has been
+// performed already. Requests may be performed out of order (a later one can
+// overtake an earlier one on the wire), so the recent ones are remembered
+// individually; anything older than that window can only be a stale copy.
+// The caller should hold the lock.
+func (a *Association) peerResetPerformed(rsn uint32) bool {
+	if _, ok := a.performedPeerRSNs[rsn]; ok {
+		return true
+	}
+
+	return a.hasLastPerformedPeerRSN && sna32LT(rsn, a.lastPerformedPeerRSN-maxReconfigRequests)
+}
+
+// The caller should hold the lock.
+func (a *Association) rememberPeerResetPerformed(rsn uint32) {
+	if a.performedPeerRSNs == nil {
+		a.performedPeerRSNs = map[uint32]struct{}{}
+	}
+	a.performedPeerRSNs[rsn] = struct{}{}
+	if !a.hasLastPerformedPeerRSN || sna32LT(a.lastPerformedPeerRSN, rsn) {
+		a.lastPerformedPeerRSN = rsn
+		a.hasLastPerformedPeerRSN = true
+	}
+	if len(a.performedPeerRSNs) > 2*maxReconfigRequests {
+		for old := range a.performedPeerRSNs {
+			if sna32LT(old, a.lastPerformedPeerRSN-maxReconfigRequests) {
+				delete(a.performedPeerRSNs, old)
+			}
+		}
+	}
 }
 
 // Move the chunk peeked with a.pendingQueue.peek() to the inflightQueue.
